@@ -19,7 +19,7 @@ def check(pid, level, text, design_ref, note, technique, engine="avrosim"):
 
 checks = [
     check("C04", "exploration",
-          "Seeded search over fault-derived inputs (hostile lengths/counts/indices spliced into valid encodings, bit flips, truncation, nesting streams up to 200000 levels) x limit configurations x slice/reader paths, each decode executed in a child worker process with allocator, stack, source-step and callback monitors; two-sided limit oracles on valid encodings. Sampling, not proof: the 'every byte string' clause is sampled, the resource clauses are what the simulation decides. Long streams of valid datums through ONE deserializer state under limits each datum just fits (limits are per datum; memory may not grow with the number of datums), nesting streams retried on one state after every refusal, a refusing caller whose errors quote the value.",
+          "Seeded search over fault-derived inputs (hostile lengths/counts/indices spliced into valid encodings, bit flips, truncation, nesting streams up to 200000 levels) x limit configurations x slice/reader paths, each decode executed in a child worker process with allocator, stack, source-step and callback monitors; two-sided limit oracles on valid encodings. Sampling, not proof: the 'every byte string' clause is sampled, the resource clauses are what the simulation decides. Long streams of valid datums through ONE deserializer state under limits each datum just fits (limits are per datum; the memory bound is stated over the whole stream), nesting streams retried on one state after every refusal, a refusing caller whose errors quote the value.",
           "DESIGN.md §4 C04",
           "Trusts the reference datum encoder (to aim hostile numbers and to know which inputs are valid), the SimAlloc accounting, an 8 MiB main-thread stack in worker processes, and a 60 s wall-clock hang detector outside the simulated system; the ignoring target is the simulator's own counting visitor, so unbounded work is normally seen as a callback count first.",
           "deterministic simulation: seeded fault-derived inputs + simulated source/allocator monitors in isolated worker processes"),
